@@ -391,6 +391,11 @@ def c20_cases():
                         tier = "full" if heavy else ("quick" if pick else "thorough")
                         out.append(("c20_%s_s%d_%s" % (kn, s, gname), "c20_harness!(c20_%s_s%d_%s, %s, %s, %s, %d, %d);" % (kn, s, gname, B[d], B[m], B[l], s, gi), tier, ["reached end"],
                                     "kind=%s degenerate shape #%d: %s functions return a value or an Error (no panic / overflow)" % (kn, s, gname)))
+                # constant-input weighted searches: fast path, target, cutoff on a tie graph with a zero-weight self-loop
+                if l and not m:
+                    for s in (5, 6):
+                        out.append(("c20_%s_s%d_weightedconst" % (kn, s), "c20_harness!(c20_%s_s%d_weightedconst, %s, %s, %s, %d, 9);" % (kn, s, B[d], B[m], B[l], s), "quick" if kn == "dsl" else "thorough", ["reached end"],
+                                    "kind=%s: weighted single_source (distance-only fast path, then %s with with_paths=false) on a constant tie graph with a zero-weight self-loop: terminates without panic" % (kn, "a target" if s == 5 else "a cutoff")))
                 # weighted single_source with a tie and (shape 6 on self-loop kinds) a zero-weight self-loop; options symbolic
                 for s in (5, 6):
                     if s == 6 and not l:
